@@ -215,7 +215,7 @@ thread_local! {
     static NT_COUNT: StdCell<u64> = const { StdCell::new(0) };
 }
 
-fn datum_outcome(ctx: &Ctx, bytes: &[u8]) -> Outcome {
+pub fn datum_outcome(ctx: &Ctx, bytes: &[u8]) -> Outcome {
     let d = gen(bytes, Some(ctx));
     let shown = d.render();
     let depth = d.depth();
@@ -246,6 +246,9 @@ fn datum_outcome(ctx: &Ctx, bytes: &[u8]) -> Outcome {
 impl Prop for C10 {
     fn id(&self) -> &'static str {
         "C10"
+    }
+    fn fuzz_stage(&self) -> Option<(&'static str, u64, usize)> {
+        Some(("datum", 2_000_000, 512))
     }
     fn rule(&self) -> &'static str {
         "recursive datum generator (depth <= 6, <= 40 containers): booleans; finite doubles by bit pattern, boundary list, decimal strings, around 1e10; integers across +-2^63 as fixnum and bignum cells; reduced rationals within i32; characters of every class; strings over the same alphabet; symbols from the lexer's identifier grammar kept only if parse_text(s) = Symbol(s) with nothing remaining; proper/improper lists, vectors, quote forms and degenerate quote spellings. Non-trivial: contains a float, a character/string needing an escape, a symbol that is not a plain ASCII identifier, or nesting >= 3; distinct by the datum's spelling."
